@@ -513,6 +513,52 @@ op_open(uint32_t index)
     }
 }
 
+// open through the HAL's own entry points (camera_open / storage_open: what the runtime calls), for identifiers whose driver is a real
+// driver library (the common driver, possibly loaded a second time under an optional driver's name: driver_id > 0)
+extern "C" {
+struct Camera* camera_open(const struct DeviceManager* system, const struct DeviceIdentifier* identifier);
+void camera_close(struct Camera* camera);
+struct Storage* storage_open(const struct DeviceManager* system, const struct DeviceIdentifier* identifier);
+void storage_close(struct Storage* self);
+}
+static void
+op_hopen(uint32_t index)
+{
+    DeviceIdentifier id;
+    sentinel(id);
+    if (device_manager_get(&id, &g_dm, index) != Device_Ok) {
+        emit('A', "err");
+        return;
+    }
+    Device* dev = 0;
+    void* handle = 0;
+    if (id.kind == DeviceKind_Camera) {
+        Camera* c = camera_open(&g_dm, &id);
+        handle = c;
+        if (c) dev = (Device*)c;   // struct Camera begins with its struct Device
+    } else if (id.kind == DeviceKind_Storage) {
+        Storage* st = storage_open(&g_dm, &id);
+        handle = st;
+        if (st) dev = (Device*)st;
+    } else {
+        emit('A', "skip");
+        return;
+    }
+    if (!handle) {
+        emit('A', "err");
+        emit('O', "hal-open-failed-for-enumerated-identifier " + show_ident(id));
+        return;
+    }
+    std::ostringstream o;
+    std::string n = name_of(dev->identifier);
+    o << "ok id=" << (unsigned)dev->identifier.device_id << " k=" << (unsigned)dev->identifier.kind << " n=" << hex(n.data(), n.size());
+    emit('A', o.str());
+    if ((unsigned)dev->identifier.kind != (unsigned)id.kind || n != name_of(id))
+        emit('O', "open-differs-from-enumeration " + show_ident(id) + " opened " + o.str());
+    if (id.kind == DeviceKind_Camera) camera_close((Camera*)handle);
+    else storage_close((Storage*)handle);
+}
+
 static void
 op_nullself()
 {
@@ -601,6 +647,11 @@ main(int argc, char** argv)
             unsigned long long i = 0;
             is >> i;
             ChildOut r = run_child([&] { op_open((uint32_t)i); }, watchdog_ms);
+            print_child(r, false);
+        } else if (op == "hopen") {
+            unsigned long long i = 0;
+            is >> i;
+            ChildOut r = run_child([&] { op_hopen((uint32_t)i); }, watchdog_ms);
             print_child(r, false);
         } else if (op == "openh") {
             // history independence of open: every other enumerated device (of every driver) is opened and closed first, in the same process
